@@ -41,7 +41,11 @@ class Clause:
 
 
 def eq(name, a, b=0.0):
-    return Clause(name, "eq", jnp.asarray(a) - jnp.asarray(b))
+    a, b = jnp.asarray(a), jnp.asarray(b)
+    if a.ndim and b.ndim and a.shape != b.shape:
+        # two arrays of different shapes are never equal (silent broadcasting would hide e.g. swapped all-ones scalings)
+        return Clause(f"{name}(shape {tuple(a.shape)} vs {tuple(b.shape)})", "true", jnp.asarray(False))
+    return Clause(name, "eq", a - b)
 
 
 def ge(name, a, b=0.0):
